@@ -727,14 +727,14 @@ def run(tier, seed, replay=None):
         if o[0] != "ok":
             r.violation(osig(o[0]), f"oracle fails on shrunk disagreement: {o[0]}", {"case": c, "oracle": o[0]})
     if (r.broken and not r.violations) and not replay:
-        extra = [gen_case(r.rng, "thorough", fault_rate=0.2) for _ in range(1500)]
-        path = vf.write_cases("c17search", extra)
-        rc, out = vf.run_bin(bins["c17"], path, timeout=1500)
-        for c, l in zip(extra, [l for l in out.splitlines() if l.startswith("res=")]):
-            _, o, _ = split_impl(l)
-            if o != "ok":
+        # P6: a proof / correspondence obligation broke and no oracle failed: search harder on the implementation
+        extra = [gen_case(r.rng, "thorough", store=("fs" if k % 8 == 0 else "mem"), fault_rate=0.2) for k in range(640)]
+        try:
+            sbad, _ = impl_only("c17search", extra, bins)
+            for c, o in sbad[:3]:
                 r.violation(osig(o), f"oracle failed during search: {o}", {"case": c, "oracle": o})
-                break
+        except vf.Broken as e:
+            r.is_broken("search-run", e)
         r.phase("P6_search", cases=len(extra))
     # evidence
     hist, opk, faults, stores = {}, {}, {"n": 0, "a": 0, "f": 0, "s": 0}, {}
